@@ -92,7 +92,8 @@ def check(ctx, c):
                 f["dotlicense_exists"] = False
                 tfiles[f["name"] + ".license"] = ("dir",)
             if f["dotlicense_exists"]:
-                tfiles[f["name"] + ".license"] = "SPDX-FileCopyrightText: 2002 Sibling Holder\n"
+                # (sometimes a placeholder of zero bytes: it was there before, so it has to stay when the annotation fails)
+                tfiles[f["name"] + ".license"] = "SPDX-FileCopyrightText: 2002 Sibling Holder\n" if len(f["name"]) % 3 else ""
         tree.write_tree(root, tfiles)
         # ---- request
         holder = "Jane Doe"
